@@ -2,7 +2,8 @@
    a program of concurrent calls, the schedule that was forced on the implementation through the
    verifhook gates (or, for the gate-free stress, the recorded invocation/response stamps), and
    everything that was observed. *)
-From SC Require Import Base.Prelude Resource.Impl Resource.Spec Resource.Pull Resource.Flat Resource.Judge Conc.Lts.
+From SC Require Import Base.Prelude Resource.Impl Resource.Spec Resource.Pull Resource.Flat Resource.Judge
+  Conc.Lts Conc.LossyPipe.
 
 Inductive fcall :=
 | FSet (msg : fmsg) (o : fwo)
@@ -11,10 +12,11 @@ Inductive fcall :=
 | FDelete (id : string) (o : fwo)
 | FSubV (ro : fro)
 | FSubC (ro : fro)
-(* Collection.Pull without backpressure, its consumer taking nothing until every call has returned
-   and draining then; what it receives depends on mergeCollectionExcess (C09) and is judged by the
-   fold oracle only *)
-| FSubCL (ro : fro)
+(* Collection.Pull (pid = None) / Collection.PullID (pid = Some id) WITHOUT backpressure.  The
+   schedule entries naming this thread after its own steps (one for Pull, two for PullID) are
+   receives of its consumer, one change each if one is offered (Conc/LossyPipe.v); once every
+   thread has ended the consumer receives until nothing is offered any more *)
+| FSubL (pid : option string) (ro : fro)
 (* Collection.PullID: returns at once; its goroutine opens the inner Pull in a step of its own *)
 | FSubID (id : string) (ro : fro).
 
@@ -45,8 +47,8 @@ Definition to_call (c : fcall) : lcall :=
   | FAdd id msg o => @CUpdate fmsg fwriter (list fld) id msg (as_add (to_wopts None o))
   | FDelete id o => @CDelete fmsg fwriter (list fld) id (to_wopts None o)
   | FSubV ro => @CSubV fmsg fwriter (list fld) (to_ropts ro)
-  | FSubC ro | FSubCL ro => @CSubC fmsg fwriter (list fld) (to_ropts ro)
-  | FSubID id ro => @CSubID fmsg fwriter (list fld) id (to_ropts ro)
+  | FSubC ro | FSubL None ro => @CSubC fmsg fwriter (list fld) (to_ropts ro)
+  | FSubID id ro | FSubL (Some id) ro => @CSubID fmsg fwriter (list fld) id (to_ropts ro)
   end.
 
 Definition init_v (vinit : option fmsg) : vstate fmsg := mkV vinit (fclock 0) 1.
@@ -89,7 +91,87 @@ Definition pull_id_of (t : nat) (prog : list fcall) : option string :=
   match nth_error prog t with Some (FSubID id _) => Some id | _ => None end.
 
 Definition is_lossy (t : nat) (prog : list fcall) : bool :=
-  match nth_error prog t with Some (FSubCL _) => true | _ => false end.
+  match nth_error prog t with Some (FSubL _ _) => true | _ => false end.
+
+(* ---------- subscribers without backpressure: the pipeline layer (Conc/LossyPipe.v) ---------- *)
+Notation flsub := (lsub fmsg (list fld)).
+Notation flchange := (lchange fmsg).
+
+Definition lossy_of_prog (i : option idf) (prog : list fcall) (t : nat) : option (option string) :=
+  match nth_error prog t with
+  | Some (FSubL pid _) => Some (option_map (apply_id (idfun_of i)) pid)
+  | _ => None
+  end.
+
+(* the number of schedule entries that are steps of the thread itself *)
+Definition own_steps (prog : list fcall) (t : nat) : option nat :=
+  match nth_error prog t with
+  | Some (FSubL None _) => Some 1%nat
+  | Some (FSubL (Some _) _) => Some 2%nat
+  | _ => None
+  end.
+
+Fixpoint classify (prog : list fcall) (cnt : nat -> nat) (sched : list nat) : list sstep :=
+  match sched with
+  | [] => []
+  | t :: r =>
+      match own_steps prog t with
+      | Some k =>
+          if Nat.ltb (cnt t) k
+          then SThread t :: classify prog (fun x => if Nat.eqb x t then S (cnt t) else cnt x) r
+          else SRecv t :: classify prog cnt r
+      | None => SThread t :: classify prog cnt r
+      end
+  end.
+
+(* the merger's opaque tokens: positions in the tables of the ids / values the run's deliveries mention *)
+Fixpoint index_of {A} (eqb : A -> A -> bool) (x : A) (l : list A) (n : Z) : Z :=
+  match l with [] => n | y :: r => if eqb x y then n else index_of eqb x r (n + 1) end.
+
+Definition tbl_vals (s : state fmsg (list fld)) : list fmsg :=
+  flat_map (fun u => map (fun p => it_body (snd p)) (c_items (cs_at u)) ++
+                     flat_map (fun e => olist (ce_old e) ++ olist (ce_new e)) (cs_evs u)) (st_csubs s).
+Definition tbl_ids (s : state fmsg (list fld)) : list string :=
+  flat_map (fun u => map fst (c_items (cs_at u)) ++ map (@ce_id fmsg) (cs_evs u)) (st_csubs s).
+
+Definition tok_id (it : list string) (id : string) : Z := index_of String.eqb id it 0.
+Definition id_at (it : list string) (z : Z) : string := nth (Z.to_nat z) it ""%string.
+Definition tok_val (vt : list fmsg) (m : fmsg) : Z := index_of fmsg_eqb m vt 0.
+Definition val_at (vt : list fmsg) (z : Z) : option fmsg := if z <? 0 then None else nth_error vt (Z.to_nat z).
+
+Definition f_lrun (v0 : bool) (i : option idf) (prog : list fcall) (sched : list nat)
+           (vinit : option fmsg) (cinit : list (string * fmsg * Z)) : state fmsg (list fld) * list flsub :=
+  let cprog := map to_call prog in
+  let ss := classify prog (fun _ => O) sched in
+  let s00 := init cprog (init_v vinit) (init_c cinit) in
+  let splain := run fmsg_eqb fzero fw_validate fw_merge fclock str_ltb (idfun_of i) v0 cprog (threads_of ss) s00 in
+  let vt := tbl_vals splain in
+  let it := tbl_ids splain in
+  let '(s, ls) := lrun fr_filter None (tok_id it) (id_at it) (tok_val vt) (val_at vt)
+                       fmsg_eqb fzero fw_validate fw_merge fclock str_ltb (idfun_of i) v0 cprog
+                       (lossy_of_prog i prog) ss (s00, []) in
+  (s, map (drained fr_filter None (id_at it) (val_at vt)) ls).
+
+Definition lc_matches (c : flchange) (o : ochange) : bool :=
+  String.eqb (lc_id c) (oc_id o) && (lc_time c =? oc_time o) && (lc_kind c =? oc_kind o) &&
+  ofm_eqb (lc_old c) (oc_old o) && ofm_eqb (lc_new c) (oc_new o) &&
+  Bool.eqb (lc_seed c) (oc_seed o) && Bool.eqb (lc_last c) (oc_last o).
+
+(* what the consumer of the subscription without backpressure of thread t received, in full *)
+Definition lossy_matches (l : flsub) (vstreams : list (nat * list ovchange)) (cstreams : list (nat * list ochange))
+           (closed : list nat) : bool :=
+  match ls_pid l with
+  | None =>
+      match assoc_nat (ls_tid l) cstreams with
+      | Some obs => list_match lc_matches (ls_gotc l) obs
+      | None => false
+      end
+  | Some _ =>
+      match assoc_nat (ls_tid l) vstreams with
+      | Some obs => list_match vc_matches (ls_gotv l) obs && Bool.eqb (ls_closed l) (existsb (Nat.eqb (ls_tid l)) closed)
+      | None => false
+      end
+  end.
 
 (* the model version compared with the implementation: false = the repaired create path *)
 Definition model_v0 := false.
@@ -97,7 +179,7 @@ Definition model_v0 := false.
 Definition agrees (c : ccase) : bool :=
   match c with
   | CaseSched i vinit cinit prog sched results fv fc vstreams cstreams closed =>
-      let s := f_run model_v0 i prog sched vinit cinit in
+      let '(s, ls) := f_lrun model_v0 i prog sched vinit cinit in
       (Nat.eqb (st_stutter s) 0) && all_done s &&
       list_match pc_matches (st_pcs s) results &&
       ofm_eqb (v_val (w_v (st_w s))) fv &&
@@ -106,7 +188,11 @@ Definition agrees (c : ccase) : bool :=
       forallb (fun u => match assoc_nat (vs_tid u) vstreams with
                         | Some obs => list_match vc_matches (vstream_of u) obs
                         | None => false end) (st_vsubs s) &&
+      (* every subscriber without backpressure has its pipeline, compared change by change *)
+      forallb (fun u => negb (is_lossy (cs_tid u) prog) || existsb (fun l => Nat.eqb (ls_tid l) (cs_tid u)) ls) (st_csubs s) &&
+      forallb (fun l => lossy_matches l vstreams cstreams closed) ls &&
       forallb (fun u =>
+                 if is_lossy (cs_tid u) prog then true else
                  match pull_id_of (cs_tid u) prog with
                  | Some id =>
                      (* PullID: the collection stream restricted to the id, ended by its removal *)
@@ -117,7 +203,7 @@ Definition agrees (c : ccase) : bool :=
                      end
                  | None =>
                      match assoc_nat (cs_tid u) cstreams with
-                     | Some obs => is_lossy (cs_tid u) prog || list_match cc_matches (cstream_of u) obs
+                     | Some obs => list_match cc_matches (cstream_of u) obs
                      | None => false
                      end
                  end) (st_csubs s)
@@ -129,7 +215,7 @@ Definition agrees (c : ccase) : bool :=
 Record hcall := mkH { h_call : fcall; h_inv : Z; h_resp : Z; h_out : fout }.
 
 Definition is_write_call (c : fcall) : bool :=
-  match c with FSubV _ | FSubC _ | FSubCL _ | FSubID _ _ => false | _ => true end.
+  match c with FSubV _ | FSubC _ | FSubL _ _ | FSubID _ _ => false | _ => true end.
 
 (* Aborted from Set/Update and Unavailable from Delete: the call lost a race and must have had no
    effect.  (The generated checks never return these codes themselves.) *)
@@ -230,7 +316,7 @@ Fixpoint sub_ro (t : nat) (prog : list fcall) : option (bool * fro) :=
   match prog, t with
   | [], _ => None
   | FSubV ro :: _, O => Some (true, ro)
-  | FSubC ro :: _, O | FSubCL ro :: _, O => Some (false, ro)
+  | FSubC ro :: _, O | FSubL None ro :: _, O => Some (false, ro)
   | _ :: _, O => None
   | _ :: r, S t' => sub_ro t' r
   end.
@@ -245,7 +331,7 @@ Definition pid_ok (id : string) (ro : fro) (stream : list ovchange) (is_closed :
   end.
 
 Definition pid_ro (t : nat) (prog : list fcall) : option (string * fro) :=
-  match nth_error prog t with Some (FSubID id ro) => Some (id, ro) | _ => None end.
+  match nth_error prog t with Some (FSubID id ro) | Some (FSubL (Some id) ro) => Some (id, ro) | _ => None end.
 
 Definition C03_ok (c : ccase) : bool :=
   match c with
@@ -268,7 +354,7 @@ Definition C03_ok (c : ccase) : bool :=
 Definition reordered_class (c : ccase) : option Z :=
   match c with
   | CaseSched i vinit cinit prog sched _ _ _ _ _ _ =>
-      if st_reordered (f_run model_v0 i prog sched vinit cinit) then Some 1 else None
+      if st_reordered (fst (f_lrun model_v0 i prog sched vinit cinit)) then Some 1 else None
   | _ => None
   end.
 
@@ -289,8 +375,9 @@ Definition agrees_v0 (c : ccase) : bool :=
 Definition debug_case (c : ccase) :=
   match c with
   | CaseSched i vinit cinit prog sched results fv fc vstreams cstreams _ =>
-      let s := f_run model_v0 i prog sched vinit cinit in
+      let '(s, ls) := f_lrun model_v0 i prog sched vinit cinit in
       Some (st_stutter s, st_pcs s, v_val (w_v (st_w s)), final_list (w_c (st_w s)),
-            map vstream_of (st_vsubs s), map cstream_of (st_csubs s))
+            map vstream_of (st_vsubs s), map cstream_of (st_csubs s),
+            map (fun l => (ls_tid l, ls_gotc l, ls_gotv l, ls_closed l)) ls)
   | _ => None
   end.
